@@ -56,36 +56,48 @@ Fixpoint c05_from (summary done : bool) (tr : list event) : bool :=
   end.
 Definition c05_ok (sc : scenario) (tr : list event) : bool := c05_from false false tr.
 
-(* C06: batches queued or running <= max nodes after every submission; processes per node <= depth *)
+(* C06: batches queued or running <= max nodes after every submission (the per-node process bound is
+   the state invariant `i_running` of SystemProofs.v and the monitor c06p below) *)
 Definition rm (x : N) (l : list N) : list N := filter (fun y => negb (N.eqb y x)) l.
-Fixpoint c06_from (sc : scenario) (active : list N) (run : list (N * (N * N))) (tr : list event) : bool :=
-  (* run : node id -> (live processes, depth) *)
+Fixpoint c06_from (sc : scenario) (active : list N) (tr : list event) : bool :=
+  match tr with
+  | [] => true
+  | e :: t =>
+    match e with
+    | ESbatch _ _ _ _ _ (Some id) =>
+      depth_ok (option_map N.succ (sc_max_nodes sc)) (N.of_nat (length (active ++ [id])))
+      && c06_from sc (active ++ [id]) t
+    | EBatchEnd id => c06_from sc (rm id active) t
+    | EScancel _ id => c06_from sc (rm id active) t
+    | _ => c06_from sc active t
+    end
+  end.
+Definition c06_ok (sc : scenario) (tr : list event) : bool := c06_from sc [] tr.
+
+(* processes per node: live processes never exceed min(#jobs of the batch, processes per node or CPUs) *)
+Fixpoint c06p_from (sc : scenario) (run : list (N * (N * N))) (tr : list event) : bool :=
   match tr with
   | [] => true
   | e :: t =>
     match e with
     | ESbatch _ _ _ jobs nproc (Some id) =>
-      let active' := active ++ [id] in
       let workers := match nproc with Some k => k | None => sc_cpus sc end in
-      depth_ok (option_map N.succ (sc_max_nodes sc)) (N.of_nat (length active'))
-      && c06_from sc active' ((id, (0, N.min (N.of_nat (length jobs)) workers)) :: run) t
-    | EBatchEnd id => c06_from sc (rm id active) run t
-    | EScancel _ id => c06_from sc (rm id active) run t
+      c06p_from sc ((id, (0, N.min (N.of_nat (length jobs)) workers)) :: run) t
     | ELaunch id _ =>
       match lookup id run with
-      | Some (k, d) => (k + 1 <=? d) && c06_from sc active ((id, (k + 1, d)) :: run) t
+      | Some (k, d) => (k + 1 <=? d) && c06p_from sc ((id, (k + 1, d)) :: run) t
       | None => false
       end
     | EAppend id r =>
-      if rw_cancel r then c06_from sc active run t
+      if rw_cancel r then c06p_from sc run t
       else match lookup id run with
-           | Some (k, d) => c06_from sc active ((id, (k - 1, d)) :: run) t
+           | Some (k, d) => c06p_from sc ((id, (k - 1, d)) :: run) t
            | None => false
            end
-    | _ => c06_from sc active run t
+    | _ => c06p_from sc run t
     end
   end.
-Definition c06_ok (sc : scenario) (tr : list event) : bool := c06_from sc [] [] tr.
+Definition c06p_ok (sc : scenario) (tr : list event) : bool := c06p_from sc [] tr.
 
 (* C10: successful promotions and demotions alternate; the role is held by one process at a time *)
 Fixpoint c10_from (h : option N) (tr : list event) : bool :=
@@ -168,4 +180,4 @@ Definition c16_ok (sc : scenario) (tr : list event) : bool :=
 
 Definition verdict (sc : scenario) (tr : list event) : option N * list bool :=
   (first_reject sc init tr 0,
-   [c01_ok sc tr; c02_ok sc tr; c05_ok sc tr; c06_ok sc tr; c10_ok sc tr; c14_ok sc tr; c16_ok sc tr]).
+   [c01_ok sc tr; c02_ok sc tr; c05_ok sc tr; c06_ok sc tr; c10_ok sc tr; c14_ok sc tr; c16_ok sc tr; c06p_ok sc tr]).
